@@ -35,13 +35,24 @@ V6 == INSTANCE PrefixMap WITH w <- 128, ps <- ps6, pins <- {}, nets <- {}, flip 
 
 ToSet(s) == {s[i] : i \in 1..Len(s)}
 
+\* Two kinds of observation live in obs4.  A MAP pair <<x, Img(x)>> comes from a replaced token or an integer-API
+\* call (the API hashes the host part even inside a preserved network).  A KEPT pair <<k, k>> comes from a token of a
+\* preserved network that the text stage left alone.  The run's text-level mapping is "kept inside the preserved
+\* networks, Img outside"; it preserves common-prefix lengths because preserved networks are pinned prefixes.  So
+\* kept pairs are compared with the pairs whose original lies outside the preserved networks (and trivially with
+\* each other), MAP pairs with an original inside a preserved network (API only) with all MAP pairs.
+InNets4(x) == \E n \in nets4 : V4!IsPrefixOf(n, x)
+KeptObs(o) == o[1] = o[2] /\ InNets4(o[1])
+Against4(x, y, S) == IF ~InNets4(x) THEN S
+                     ELSE IF x = y THEN {o \in S : ~InNets4(o[1])}
+                     ELSE {o \in S : ~KeptObs(o)}
 \* verdict of one <<original, image>> pair of family f against history S
 PairVerdict(f, x, y, S) ==
   IF f = 4 THEN
     (IF "Suffix" \in cls /\ ~V4!PairSuffix(x, y) THEN "Suffix"
      ELSE IF "Pins" \in cls /\ ~V4!PairPins(x, y) THEN "Pins"
      ELSE IF "Nets" \in cls /\ ~V4!PairNets(x, y) THEN "Nets"
-     ELSE IF "Consistent" \in cls /\ ~V4!PairConsistent(x, y, S) THEN "Consistent"
+     ELSE IF "Consistent" \in cls /\ ~V4!PairConsistent(x, y, Against4(x, y, S)) THEN "Consistent"
      ELSE "ok")
   ELSE
     (IF "Suffix" \in cls /\ ~V6!PairSuffix(x, y) THEN "Suffix"
@@ -60,7 +71,13 @@ Judge(ps_, o4, o6) ==
     IF p.fam = 4 THEN
       LET tv == Bits4(p.tok) IN
       IF Kept4(tv) THEN
-        (IF "Kept" \in cls /\ p.rep # p.tok THEN <<"Kept", o4, o6>> ELSE Judge(Tail(ps_), o4, o6))
+        (IF "Kept" \in cls /\ p.rep # p.tok THEN <<"Kept", o4, o6>>
+         \* an address of a preserved network that was left alone is an observation <<x, x>> of the run's mapping
+         \* (preserved networks are pinned prefixes in PrefixMap): it must be consistent with everything else
+         ELSE IF p.rep = p.tok /\ ~IsMaskBits(tv) THEN
+              LET v == PairVerdict(4, tv, tv, o4) IN
+              IF v # "ok" THEN <<v, o4, o6>> ELSE Judge(Tail(ps_), o4 \cup {<<tv, tv>>}, o6)
+         ELSE Judge(Tail(ps_), o4, o6))
       ELSE IF ~Valid4(p.rep) THEN <<"Replacement4Invalid", o4, o6>>
       ELSE IF "Spelling" \in cls /\ ~Plain4(p.rep) THEN <<"Spelling", o4, o6>>
       ELSE LET rv == Bits4(p.rep)
@@ -104,7 +121,7 @@ StepLine(e) ==
   LET r == LineVerdict(e) IN
   IF r[1] # "ok" THEN Reject(e, r[1])
   ELSE /\ obs4' = r[2] /\ obs6' = r[3]
-       /\ txt4' = txt4 \cup (r[2] \ obs4) /\ txt6' = txt6 \cup (r[3] \ obs6)
+       /\ txt4' = txt4 \cup {o \in r[2] \ obs4 : ~KeptObs(o)} /\ txt6' = txt6 \cup (r[3] \ obs6)
        /\ UNCHANGED <<skip, cls, on4, on6, undo, ps4, pins4, nets4, ps6>>
 
 StepApi(e) ==
